@@ -83,6 +83,8 @@ def install(lib):
             if x.sort() == INT:
                 return x
             if x.sort() == REAL:
+                if z3.is_app(x) and x.decl().kind() == z3.Z3_OP_TO_REAL:
+                    return x.arg(0)
                 used(ex, "int(x) truncates toward zero (floats as reals)")
                 return z3.If(x >= 0, z3.ToInt(x), -z3.ToInt(-x))
             if x.sort() == BOOL:
